@@ -96,20 +96,21 @@ def _wit(eff, fi, r, p):
     return f"line {w[0]}: {w[1]}" if w else "via callee"
 
 
-def r_module(ctx: Ctx, model, eff: Effects, eps):
-    ctx.rule("R-module: module-level objects written from an entry point are declared (write-once caches, "
+def r_module(ctx: Ctx, model, eff: Effects, eps, prop="C04", rule="R-module", write_once=None, memo=True):
+    write_once = WRITE_ONCE if write_once is None else write_once
+    ctx.rule(f"{rule}: module-level objects written from an entry point are declared (write-once caches, "
              "registries); write-once caches are guarded by a membership test that returns the cached value; "
              "no memoisation decorator anywhere in the package")
     for fi in eps:
         s = eff.sum[eff.key(fi)]
         for g, path in sorted(s.gwrites):
             ctx.ob(g in GLOBAL_TABLE, Finding(
-                "C04.R-module", fi.where, f"{fi.short}|global:{g}",
+                f"{prop}.{rule}", fi.where, f"{fi.short}|global:{g}",
                 f"{fi.short}() may write the module-level object {g} ({_wit(eff, fi, 'global:' + g, path)}), which is not a "
                 "declared cache/registry: the outcome of later calls may depend on earlier ones"),
                 nontrivial_key=("module", fi.qualname, g))
     # write-once discipline
-    for g in WRITE_ONCE:
+    for g in write_once:
         mod, name = g.rsplit(".", 1)
         m = model.module(mod)
         if name not in m.assigns:
@@ -183,23 +184,25 @@ def r_module(ctx: Ctx, model, eff: Effects, eps):
                     if isinstance(e, ast.Call) and isinstance(e.func, ast.Attribute) and e.func.attr in ("resolve", "absolute", "as_posix") and not e.args:
                         return injective(e.func.value)
                     return False
-                ctx.ob(injective(kexpr), Finding("C04.R-module", fn.where, f"{fn.short}|cache-key-lossy:{name}",
+                ctx.ob(injective(kexpr), Finding(f"{prop}.{rule}", fn.where, f"{fn.short}|cache-key-lossy:{name}",
                                                  f"{fn.short}() files its result in {g} under `{ast.unparse(kexpr)}`, which does not determine the "
                                                  "arguments (different inputs share one entry): a later call with another input is answered with "
                                                  "the value cached for the first"),
                        nontrivial_key=("cache-key-injective", g, fn.name))
-            ctx.ob(ok, Finding("C04.R-module", fn.where, f"{fn.short}|write-once:{name}",
+            ctx.ob(ok, Finding(f"{prop}.{rule}", fn.where, f"{fn.short}|write-once:{name}",
                                f"{fn.short}() stores into the cache {g} without the guard `if key in {name}: return {name}[key]` "
                                "(or mutates/deletes entries): cached values could change between calls"),
                    nontrivial_key=("write-once", g, fn.name))
         ctx.floor(f"writers of {g}", writers, 1)
+    if not memo:
+        return
     # memoisation decorators
     nfun = 0
     for fi in model.all_functions():
         nfun += 1
         for d in fi.decorators:
             if MEMO_DECORATORS.search(d):
-                ctx.ob(False, Finding("C04.R-module", fi.where, f"{fi.short}|memoised:{d}",
+                ctx.ob(False, Finding(f"{prop}.{rule}", fi.where, f"{fi.short}|memoised:{d}",
                                       f"{fi.short} is memoised with @{d}: an undeclared cache keyed by argument hash/equality "
                                       "(adsorbates and materials hash by name only; model objects are mutable) makes results "
                                       "depend on earlier calls"))
